@@ -62,3 +62,12 @@ add("C19", "exploration", "property-based testing (proptest): generated standard
     "Search over generated ontologies with several top-level branches, multi-category terms and missing roots through every construction path that applies defaults.",
     "<=22 terms quick / 70 thorough.",
     "DESIGN.md section 4, C19")
+
+add("C15", "exploration", "stateful property-based testing (proptest call histories + interpreter model); metamorphic check 'drop the failing calls'",
+    "Generated Builder call histories with 20-50 % failing calls; an interpreter over plain sets predicts every return value; the built ontology is walked through the whole read API under catch_unwind and compared with the reference model of the successful calls and with the ontology built from the successful calls alone.",
+    "Present parent links acyclic by construction; <=12 distinct terms quick / 30 thorough, <=30 add_parent and <=30 annotation calls.",
+    "DESIGN.md section 4, C15")
+add("C16", "exploration", "metamorphic property-based testing (proptest): same facts, two generated supply orders, every construction path; cross-path differential",
+    "Search over fact sets and pairs of supply orders (Builder calls, binary records, text stanzas and rows); complete sorted read-API snapshots must be equal within a path and across paths that can express the facts.",
+    "One name per id / one replacement per term; <=18 terms quick / 60 thorough.",
+    "DESIGN.md section 4, C16")
